@@ -126,8 +126,10 @@ type c13Case struct {
 	intern  map[hotstuff.Hash]uint64
 	ops     []string
 	obs     []string
+	peeks   []string // pruneHeight read after every operation
 	desc    []string
 	names   map[hotstuff.Hash]string
+	kept    []c13Kept // results of PruneToHeight the harness holds on to (aliasing)
 	// reference forest: every block handed to the store so far, by its own hash
 	present map[hotstuff.Hash]*hotstuff.Block
 	lied    bool // a fetch answer had a hash different from the requested one (no network filter here)
@@ -209,8 +211,17 @@ func (c *c13Case) emit(op, obs, desc string) {
 	if c.record {
 		c.ops = append(c.ops, op)
 		c.obs = append(c.obs, obs)
+		c.peeks = append(c.peeks, fmt.Sprintf("(Some %d, None)", uint64(c.chain.pruneHeight)))
 		c.desc = append(c.desc, desc)
 	}
+}
+
+// c13Kept: a slice returned by PruneToHeight, a private copy of what it held when it was returned,
+// and the operation that returned it.
+type c13Kept struct {
+	got  []*hotstuff.Block
+	copy []*hotstuff.Block
+	desc string
 }
 
 // guard runs f and turns a panic of the code under test into an observation.
@@ -365,6 +376,11 @@ func (c *c13Case) Get(h hotstuff.Hash, conc []*hotstuff.Block, ans *hotstuff.Blo
 	}
 	c.snd.tbl = map[hotstuff.Hash]c13Reply{h: {conc: conc, ans: ans}}
 	g0 := len(c.snd.given)
+	_, hadBefore := c.present[h]
+	arrives := false
+	for _, x := range conc {
+		arrives = arrives || x.Hash() == h
+	}
 	var b *hotstuff.Block
 	var ok bool
 	pan := c.guard(op, desc, func() { b, ok = c.chain.Get(h) })
@@ -385,8 +401,9 @@ func (c *c13Case) Get(h hotstuff.Hash, conc []*hotstuff.Block, ans *hotstuff.Blo
 		// content addressing: what comes back under h has hash h; a present block is found
 		if ok && (b == nil || b.Hash() != h) {
 			c.fail("store:get-wrong-hash", fmt.Sprintf("Get(#%d) returned %s", c.id(h), c.name(b)))
-		} else if _, have := c.present[h]; have != ok {
-			c.fail("store:get-availability", fmt.Sprintf("Get(#%d) ok=%v but reference has=%v", c.id(h), ok, have))
+		} else if have := hadBefore || arrives || (ans != nil && ans.Hash() == h); have != ok {
+			c.fail("store:get-availability", fmt.Sprintf("Get(#%d) ok=%v but the block is available=%v (stored before=%v, arrives meanwhile=%v, a peer has it=%v)",
+				c.id(h), ok, have, hadBefore, arrives, ans != nil && ans.Hash() == h))
 		} else {
 			c.ok()
 		}
@@ -482,13 +499,33 @@ func (c *c13Case) Prune(committed *hotstuff.Block, height uint64) {
 	if c.record {
 		c.emit(op, "(RBlocks "+c.gBs(forked)+")", desc+" -> forked "+c.names_(forked))
 	}
+	// aliasing: keep the returned slice and a private copy; after the bookkeeping below the harness
+	// appends to the returned slice (as a caller may); at the end of the case every kept slice must
+	// still hold what it held when it was returned, and later results must not show the appended block
+	orig := forked
+	held := append([]*hotstuff.Block(nil), forked...)
+	c.kept = append(c.kept, c13Kept{got: orig, copy: held, desc: desc})
+	defer func() {
+		if cap(orig) > len(orig) {
+			_ = append(orig, c.genesis)
+		}
+	}()
+	forked = held
 	if c.pruned && hotstuff.View(height) <= c.lastHeight {
 		c.increasing = false
 	}
 	c.pruned, c.lastHeight = true, hotstuff.View(height)
 	on := c.chainOf(committed, nil)
 	bad := false
+	seenNow := map[hotstuff.Hash]bool{}
 	for _, r := range forked {
+		if r != nil && seenNow[r.Hash()] {
+			c.fail("store:prune-reported-twice", fmt.Sprintf("%s reported %s twice in one call", desc, c.name(r)))
+			bad = true
+		}
+		if r != nil {
+			seenNow[r.Hash()] = true
+		}
 		if r == nil {
 			c.fail("store:prune-nil-block", desc+" reported a nil block")
 			bad = true
@@ -512,6 +549,17 @@ func (c *c13Case) Prune(committed *hotstuff.Block, height uint64) {
 
 // finish checks the maps against the reference and emits the case.
 func (c *c13Case) finish(kind string) {
+	for _, k := range c.kept {
+		same := len(k.got) == len(k.copy)
+		for i := 0; same && i < len(k.got); i++ {
+			same = k.got[i] == k.copy[i]
+		}
+		if !same {
+			c.fail("store:prune-result-aliased", "the slice returned by "+k.desc+" was changed by later operations on the store")
+		} else {
+			c.ok()
+		}
+	}
 	snap := c.snapshot()
 	if !c.lied && !c.panicked {
 		good := true
@@ -552,7 +600,11 @@ func (c *c13Case) finish(kind string) {
 	for i, k := range vk {
 		as[i] = fmt.Sprintf("(%d, %s)", k, c.gB(snap.at[hotstuff.View(k)]))
 	}
-	term := fmt.Sprintf("(C false %s\n %s\n %s\n (D %s (Some %s) %d None))", c.gB(c.genesis), gList(c.ops), gList(c.obs),
+	steps := make([]string, len(c.ops))
+	for i := range c.ops {
+		steps[i] = "(" + c.ops[i] + ", " + c.obs[i] + ", " + c.peeks[i] + ")"
+	}
+	term := fmt.Sprintf("(PC false %s\n %s\n (D %s (Some %s) %d None))", c.gB(c.genesis), gList(steps),
 		gList(bs), gList(as), uint64(snap.ph))
 	meta := map[string]any{"kind": kind, "ops": c.desc}
 	if len(c.fails) > 0 {
@@ -693,7 +745,7 @@ func c13Perms(n int) [][]int {
 func TestVerifC13(t *testing.T) {
 	v := verifNew("C13")
 	logging.SetLogLevel("error")
-	env := &c13Env{v: v, logger: logging.New("c13"), stream: v.Stream("store", "mismatches", 400)}
+	env := &c13Env{v: v, logger: logging.New("c13"), stream: v.Stream("store", "step_mismatches", 400)}
 	search := os.Getenv("VERIF_SEARCH") != "" // bin/check's search phase: look harder for a failing input
 
 	// ---- stream "edge": boundary and malformed inputs (first: the canonical cases lead the report)
@@ -777,6 +829,121 @@ func TestVerifC13(t *testing.T) {
 				}
 			}
 		})
+	}
+
+	// ---- stream "requery": the same Extends / Get / LocalGet queries before and after the store
+	// changes (a missing ancestor arrives, a commit prunes): answers must follow the store, not an
+	// earlier answer
+	rqN := v.Pick(3, 4)
+	rqStride := v.Pick(13, 41)
+	rq := 0
+	for n := 2; n <= rqN; n++ {
+		c13EnumForests(n, maxView, func(f c13Forest) {
+			bs := f.build()
+			for mask := 0; mask < (1<<n)-1; mask++ { // at least one hole
+				if n >= 4 && bitsSet(mask) < n-2 {
+					continue
+				}
+				rq++
+				key := fmt.Sprintf("requery %s mask=%d", f.key(), mask)
+				env.runCase("requery", key, true, rq%rqStride == 0, func(c *c13Case) {
+					all := func() {
+						for _, b := range bs {
+							for _, tg := range bs {
+								c.Extends(b, tg, nil)
+							}
+						}
+					}
+					for i := 1; i <= n; i++ {
+						if mask&(1<<(i-1)) != 0 {
+							c.Store(bs[i])
+						}
+					}
+					all()
+					first := true
+					for i := n; i >= 1; i-- { // the holes arrive, youngest first
+						if mask&(1<<(i-1)) != 0 {
+							continue
+						}
+						h := bs[i].Hash()
+						c.LocalGet(h)
+						c.Get(h, nil, nil) // nobody has it
+						c.Get(h, nil, nil) // still nobody
+						if first {
+							c.Get(h, nil, bs[i]) // now a peer answers
+							first = false
+						} else {
+							c.Store(bs[i])
+						}
+						c.Get(h, nil, nil) // local now, the sender is not needed
+						c.LocalGet(h)
+						all()
+					}
+					// commit the block with the highest view, then ask everything again
+					top := n
+					c.Prune(bs[top], f.views[top-1])
+					all()
+					for i := 1; i <= n; i++ {
+						c.StoreAgain(bs[i])
+					}
+					c.Prune(bs[top], f.views[top-1]+1)
+					all()
+				})
+			}
+		})
+	}
+
+	// ---- stream "depth": a chain whose ancestors are missing at chosen depths; the fetch for
+	// each missing ancestor fails or succeeds (first attempt), then everything is fetchable
+	// (retry), then nothing is needed any more
+	dp := 0
+	dpStride := v.Pick(3, 1)
+	for d := 2; d <= v.Pick(5, 6); d++ {
+		chain := []*hotstuff.Block{hotstuff.GetGenesis()}
+		for i := 1; i <= d; i++ {
+			chain = append(chain, c13Block(chain[i-1].Hash(), uint64(2*i-1), i))
+		}
+		side := c13Block(chain[1].Hash(), uint64(chain[2].View()), 40) // equivocates with chain[2]
+		for local := 0; local < 1<<(d-1); local++ {                    // which of chain[1..d-1] are stored
+			for avail := 0; avail < 1<<(d-1); avail++ { // which missing ones a peer has at first
+				if avail&local != 0 {
+					continue
+				}
+				for tipStored := 0; tipStored < 2; tipStored++ {
+					dp++
+					key := fmt.Sprintf("depth d=%d local=%d avail=%d tip=%d", d, local, avail, tipStored)
+					env.runCase("depth", key, true, dp%dpStride == 0, func(c *c13Case) {
+						for i := 1; i < d; i++ {
+							if local&(1<<(i-1)) != 0 {
+								c.Store(chain[i])
+							}
+						}
+						c.Store(side)
+						if tipStored == 1 {
+							c.Store(chain[d])
+						}
+						f1 := map[hotstuff.Hash]*hotstuff.Block{}
+						fall := map[hotstuff.Hash]*hotstuff.Block{}
+						for i := 1; i < d; i++ {
+							if local&(1<<(i-1)) == 0 {
+								fall[chain[i].Hash()] = chain[i]
+								if avail&(1<<(i-1)) != 0 {
+									f1[chain[i].Hash()] = chain[i]
+								}
+							}
+						}
+						c.Extends(chain[d], chain[0], f1)   // may fail at the first unavailable depth
+						c.Extends(chain[d], side, f1)       // never an ancestor
+						c.Extends(chain[d], chain[0], nil)  // peers silent: only what was fetched helps
+						c.Extends(chain[d], chain[0], fall) // retry: now everything can be fetched
+						c.Extends(chain[d], chain[1], nil)  // and stays
+						c.Extends(side, chain[2], nil)
+						c.Prune(chain[d], uint64(chain[d].View()))
+						c.Extends(chain[d], chain[0], nil)
+					})
+				}
+			}
+		}
 	}
 
 	// ---- stream "seq": seeded random programs
@@ -968,6 +1135,43 @@ func c13Edges(env *c13Env) {
 				c.Extends(x, y, nil)
 			}
 		}
+	})
+	run("views-agreeing-in-low-bits", func(c *c13Case) {
+		// views that collide when truncated to 8, 16 or 32 bits
+		for _, sh := range []uint{8, 16, 31, 32, 53, 63} {
+			base := uint64(1) << sh
+			a := c13Block(g.Hash(), 5, int(sh))
+			b := c13Block(a.Hash(), base+5, int(sh)+100)
+			d := c13Block(b.Hash(), base+6, int(sh)+200)
+			e := c13Block(a.Hash(), base+6, int(sh)+300)
+			for _, x := range []*hotstuff.Block{a, b, d, e} {
+				c.Store(x)
+			}
+			for _, x := range []*hotstuff.Block{g, a, b, d, e} {
+				for _, y := range []*hotstuff.Block{g, a, b, d, e} {
+					c.Extends(x, y, nil)
+				}
+			}
+		}
+	})
+	run("prune-across-2^16", func(c *c13Case) {
+		a := c13Block(g.Hash(), 65534, 1)
+		b := c13Block(a.Hash(), 65535, 2)
+		d := c13Block(b.Hash(), 65536, 3)
+		e := c13Block(d.Hash(), 65537, 4)
+		f0 := c13Block(g.Hash(), 1, 5)     // 65537 mod 2^16
+		f1 := c13Block(a.Hash(), 65536, 6) // equivocates with d
+		f2 := c13Block(g.Hash(), 65535, 7) // stored before b
+		for _, x := range []*hotstuff.Block{a, f2, b, d, f1, f0, e} {
+			c.Store(x)
+		}
+		c.Prune(b, 65535)
+		for _, x := range []*hotstuff.Block{a, b, d, e, f1} {
+			c.Extends(e, x, nil)
+		}
+		c.Prune(e, 65537)
+		c.StoreAgain(f1)
+		c.Prune(e, 65539)
 	})
 	run("self-and-absent", func(c *c13Case) {
 		a := c13Block(g.Hash(), 1, 1)
